@@ -749,7 +749,7 @@ def check(ctx):
     units += [("long", k) for k in BASE] + [("eqnone",)]
     units += [("redh", k, pol) for k in ("int", "float", "str", "date") for pol in ("fresh", "recycle")]
     agg = core.merge_all(core.pmap(run_unit, units))
-    agg.notes["bound"] = f"arith/compare operands len<={N}, reductions and na-ops len<={N+1}, every None subset"
+    agg.notes["bound"] = f"arith/compare operands len<={N} (incl. %-templates as left operand), reductions and na-ops len<={N+1}, every None subset; elements that compare equal to None: every arrangement len<=3"
     agg.notes["exhaustive"] = True
     return agg
 
